@@ -551,7 +551,7 @@ var itemRe = func(tok string) (n, v, i int, ok bool) {
 }
 
 // exec is the body of every Exec callback. arg is what flyt handed over.
-func (h *harness) exec(n *NodeSpec, arg any, anyStyle bool) (val any, errRes error, err error) {
+func (h *harness) exec(ctx context.Context, n *NodeSpec, arg any, anyStyle bool) (val any, errRes error, err error) {
 	st := h.st[n.ID]
 	argDesc := ""
 	item := -1
@@ -630,6 +630,16 @@ func (h *harness) exec(n *NodeSpec, arg any, anyStyle bool) (val any, errRes err
 		tok = fmt.Sprintf("n%dv%de%d", n.ID, v, a)
 	}
 	h.perform(n, o, need)
+	if o.Nested > 0 {
+		// a batch of its own, run from inside this item with the item's context
+		simrt.Emit(simrt.Event{Kind: "nested_start", N: n.ID, V: v, I: item + 1, S1: fmt.Sprint(o.Nested - 1)})
+		_, nerr := flyt.Run(ctx, h.nodes[o.Nested-1], h.store)
+		simrt.Emit(simrt.Event{Kind: "nested_end", N: n.ID, V: v, I: item + 1, S1: h.reg.describeErr(nerr)})
+	}
+	if o.Panic {
+		simrt.Emit(simrt.Event{Kind: "exec_panic", N: n.ID, V: v, A: a, I: item + 1})
+		panic("scripted panic in " + tok)
+	}
 	end := simrt.Event{Kind: "exec_end", N: n.ID, V: v, A: a}
 	if item >= 0 {
 		end.I = item + 1
@@ -777,7 +787,7 @@ func (c cb) Prep(ctx context.Context, shared *flyt.SharedStore) (any, error) {
 }
 func (c cb) Exec(ctx context.Context, prepResult any) (any, error) {
 	c.h.noteCtx(c.n, ctx)
-	v, er, err := c.h.exec(c.n, prepResult, true)
+	v, er, err := c.h.exec(ctx, c.n, prepResult, true)
 	if er != nil {
 		return flyt.NewErrorResult(er), nil
 	}
@@ -857,7 +867,7 @@ type zst3 struct{}
 
 func zPrep(k int, s *flyt.SharedStore) (any, error) { return zstHarness.prep(zstSpec[k], s) }
 func zExec(k int, p any) (any, error) {
-	v, _, err := zstHarness.exec(zstSpec[k], p, true)
+	v, _, err := zstHarness.exec(context.Background(), zstSpec[k], p, true)
 	return v, err
 }
 func zPost(k int, s *flyt.SharedStore, p, e any) (flyt.Action, error) {
@@ -927,7 +937,7 @@ func ctorOpts(n *NodeSpec) []any {
 func (h *harness) execFuncR(n *NodeSpec) func(context.Context, flyt.Result) (flyt.Result, error) {
 	return func(ctx context.Context, p flyt.Result) (flyt.Result, error) {
 		h.noteCtx(n, ctx)
-		v, er, err := h.exec(n, p, false)
+		v, er, err := h.exec(ctx, n, p, false)
 		if err != nil {
 			if er != nil {
 				return flyt.NewErrorResult(er), err
@@ -947,7 +957,7 @@ func (h *harness) execFuncR(n *NodeSpec) func(context.Context, flyt.Result) (fly
 func (h *harness) execFuncA(n *NodeSpec) func(context.Context, any) (any, error) {
 	return func(ctx context.Context, p any) (any, error) {
 		h.noteCtx(n, ctx)
-		v, er, err := h.exec(n, p, true)
+		v, er, err := h.exec(ctx, n, p, true)
 		if er != nil && err == nil {
 			panic("errres outcome scripted for an Any-style exec function")
 		}
@@ -1540,14 +1550,25 @@ func (h *harness) runMain() {
 		simrt.Emit(simrt.Event{Kind: "run_start", N: r})
 		var action flyt.Action
 		var err error
-		if sc.Via == "flowrun" {
-			err = h.nodes[sc.Root].(*flyt.Flow).Run(h.ctx, h.store)
-			action = "(flow.Run)"
-		} else {
-			action, err = flyt.Run(h.ctx, h.nodes[sc.Root], h.store)
-		}
 		flags := ""
-		if cerr := h.ctx.Err(); cerr != nil && err != nil && errors.Is(err, cerr) {
+		func() {
+			defer func() {
+				// only a panic the scenario scripted is taken as the run's outcome
+				if p := recover(); p != nil {
+					if msg, ok := p.(string); !ok || !strings.HasPrefix(msg, "scripted panic") {
+						panic(p)
+					}
+					action, err, flags = "", fmt.Errorf("%v", p), "panicked"
+				}
+			}()
+			if sc.Via == "flowrun" {
+				err = h.nodes[sc.Root].(*flyt.Flow).Run(h.ctx, h.store)
+				action = "(flow.Run)"
+			} else {
+				action, err = flyt.Run(h.ctx, h.nodes[sc.Root], h.store)
+			}
+		}()
+		if cerr := h.ctx.Err(); flags == "" && cerr != nil && err != nil && errors.Is(err, cerr) {
 			flags = "matches-ctx"
 		}
 		simrt.Emit(simrt.Event{Kind: "run_end", N: r, S1: string(action), S2: h.reg.describeErr(err), S3: flags})
